@@ -1341,4 +1341,1298 @@ theorem create_mounts_spec {s : State} (hinv : Inv s) {orc : Oracle} {kind : Kin
   refine ⟨by rw [← hk]; exact hinv1.findKey_of_mem hmem, by rw [hsn], by rw [hsn], by rw [hsn], by rw [hsn], ps,
     (createChecks_ok hchk).2.2.2, by rw [h1, hp], h2⟩
 
+theorem findKey_insertSnap_ne {sn : Snap} {l : List Snap} {k : String} (h : k ≠ sn.key) :
+    findKey (insertSnap sn l) k = findKey l k := by
+  induction l with
+  | nil =>
+    simp only [insertSnap, findKey, List.find?_cons, List.find?_nil]
+    have : (sn.key == k) = false := by simp [Ne.symm h]
+    simp [this]
+  | cons y ys ih =>
+    unfold insertSnap
+    split
+    · simp only [findKey, List.find?_cons]
+      have : (sn.key == k) = false := by simp [Ne.symm h]
+      simp [this]
+    · simp only [findKey, List.find?_cons] at ih ⊢
+      split
+      · rfl
+      · exact ih
+
+def committedOf (l : List Snap) : List Snap := l.filter (fun a => a.kind == .committed)
+
+theorem committedOf_insert {sn : Snap} {l : List Snap} (h : sn.kind ≠ .committed) :
+    committedOf (insertSnap sn l) = committedOf l := by
+  have hk : (sn.kind == Kind.committed) = false := by simp [h]
+  induction l with
+  | nil => simp [insertSnap, committedOf, hk]
+  | cons y ys ih =>
+    unfold insertSnap
+    split
+    · simp [committedOf, List.filter_cons, hk]
+    · simp only [committedOf, List.filter_cons] at ih ⊢
+      rw [ih]
+
+theorem createChecks_err_exists {s : State} {key parent : String}
+    (h : createChecks s key parent = .error .exists) : hasKey s.snaps key = true := by
+  unfold createChecks at h
+  split at h
+  · rename_i e hpe
+    simp only [Except.error.injEq] at h
+    subst h
+    unfold parentErr at hpe
+    split at hpe
+    · cases hpe
+    · split at hpe
+      · cases hpe
+      · split at hpe <;> cases hpe
+  · split at h
+    · cases h
+    · split at h
+      · assumption
+      · split at h <;> cases h
+
+theorem createPlan_err_exists {s : State} {orc : Oracle} {kind : Kind} {key parent : String} {labels : Labels}
+    {st : List Step} (h : createPlan s orc kind key parent labels = (st, .error .exists)) :
+    hasKey s.snaps key = true := by
+  unfold createPlan at h
+  simp only [] at h
+  split at h
+  · rename_i e hc
+    simp only [Prod.mk.injEq, Except.error.injEq] at h
+    rw [h.2] at hc
+    exact createChecks_err_exists hc
+  · split at h
+    · simp at h
+    · split at h
+      · simp at h
+      · simp at h
+
+theorem isRemote_lset (l : Labels) (v : String) : isRemote (lset l remoteLabel v) = true := by
+  simp [isRemote, lhas, lset, lget]
+
+theorem mountsPlan_res_cases (s : State) (orc : Oracle) (sn : Snap) (pids : List Nat) (ck : String) :
+    (∃ m, (mountsPlan s orc sn pids ck).2 = .mounts m) ∨ (mountsPlan s orc sn pids ck).2 = .err .unavailable := by
+  unfold mountsPlan
+  split
+  · exact Or.inl ⟨_, rfl⟩
+  · split
+    · exact Or.inr rfl
+    · simp only []
+      split
+      · exact Or.inl ⟨_, rfl⟩
+      · exact Or.inr rfl
+
+/-! ### final states of the cleanup loops and of restore -/
+
+theorem cleanupDir_state (s : State) (orc : Oracle) (d : Dir) :
+    (applySteps s (cleanupDir orc d)).snaps = s.snaps ∧ (applySteps s (cleanupDir orc d)).closed = s.closed ∧
+    (applySteps s (cleanupDir orc d)).seq = s.seq ∧ (applySteps s (cleanupDir orc d)).init = s.init ∧
+    (applySteps s (cleanupDir orc d)).cfg = s.cfg ∧
+    (∀ x, x ∈ (applySteps s (cleanupDir orc d)).dirs ↔ x ∈ s.dirs ∧ x ≠ d) ∧
+    (∀ n, n ∈ (applySteps s (cleanupDir orc d)).mounts ↔ n ∈ s.mounts ∧ Dir.id n ≠ d) := by
+  cases d with
+  | temp t => simp [applySteps, applyStep, cleanupDir]
+  | id m => simp [applySteps, applyStep, cleanupDir]
+
+theorem cleanupSteps_state (orc : Oracle) (ds : List Dir) : ∀ (s : State),
+    (applySteps s (cleanupSteps orc ds)).snaps = s.snaps ∧ (applySteps s (cleanupSteps orc ds)).closed = s.closed ∧
+    (applySteps s (cleanupSteps orc ds)).seq = s.seq ∧ (applySteps s (cleanupSteps orc ds)).init = s.init ∧
+    (applySteps s (cleanupSteps orc ds)).cfg = s.cfg ∧
+    (∀ x, x ∈ (applySteps s (cleanupSteps orc ds)).dirs ↔ x ∈ s.dirs ∧ x ∉ ds) ∧
+    (∀ n, n ∈ (applySteps s (cleanupSteps orc ds)).mounts ↔ n ∈ s.mounts ∧ Dir.id n ∉ ds) := by
+  induction ds with
+  | nil => intro s; simp [cleanupSteps, applySteps]
+  | cons d r ih =>
+    intro s
+    have h1 := cleanupDir_state s orc d
+    have h2 := ih (applySteps s (cleanupDir orc d))
+    unfold cleanupSteps at h2 ⊢
+    rw [List.flatMap_cons, applySteps_append]
+    obtain ⟨a1, a2, a3, a4, a5, a6, a7⟩ := h1
+    obtain ⟨b1, b2, b3, b4, b5, b6, b7⟩ := h2
+    refine ⟨b1.trans a1, b2.trans a2, b3.trans a3, b4.trans a4, b5.trans a5, ?_, ?_⟩
+    · intro x; rw [b6, a6]; simp only [List.mem_cons, not_or]; constructor
+      · rintro ⟨⟨h, h'⟩, h''⟩; exact ⟨h, h', h''⟩
+      · rintro ⟨h, h', h''⟩; exact ⟨⟨h, h'⟩, h''⟩
+    · intro n; rw [b7, a7]; simp only [List.mem_cons, not_or]; constructor
+      · rintro ⟨⟨h, h'⟩, h''⟩; exact ⟨h, h', h''⟩
+      · rintro ⟨h, h', h''⟩; exact ⟨⟨h, h'⟩, h''⟩
+
+theorem restoreSteps_state (allow : Bool) (orc : Oracle) (tasks : List Snap) : ∀ (s : State),
+    (applySteps s (restoreSteps allow orc tasks).1).snaps = s.snaps ∧
+    (applySteps s (restoreSteps allow orc tasks).1).closed = s.closed ∧
+    (applySteps s (restoreSteps allow orc tasks).1).seq = s.seq ∧
+    (applySteps s (restoreSteps allow orc tasks).1).init = s.init ∧
+    (applySteps s (restoreSteps allow orc tasks).1).cfg = s.cfg ∧
+    (∀ x, x ∈ (applySteps s (restoreSteps allow orc tasks).1).dirs →
+        x ∈ s.dirs ∨ ∃ t ∈ tasks, x = Dir.id t.id) ∧
+    (∀ x, x ∈ s.dirs → x ∈ (applySteps s (restoreSteps allow orc tasks).1).dirs) ∧
+    ((restoreSteps allow orc tasks).2 = true →
+        ∀ t ∈ tasks, Dir.id t.id ∈ (applySteps s (restoreSteps allow orc tasks).1).dirs) := by
+  induction tasks with
+  | nil => intro s; simp [restoreSteps, applySteps]
+  | cons sn rest ih =>
+    intro s
+    obtain ⟨m1, m2, m3, m4, m5⟩ := mkdirId_facts s sn.id
+    have hmc : (applyStep s (.mkdirId sn.id)).closed = s.closed := by simp only [applyStep]; split <;> rfl
+    have hmi : (applyStep s (.mkdirId sn.id)).init = s.init := by simp only [applyStep]; split <;> rfl
+    have hmg : (applyStep s (.mkdirId sn.id)).cfg = s.cfg := by simp only [applyStep]; split <;> rfl
+    unfold restoreSteps
+    split
+    · simp only [applySteps_cons]
+      have := ih (applyStep (applyStep (applyStep (applyStep s (.mkdirId sn.id)) (.marker "restore.mkdir"))
+        (.fsMount sn.id sn.labels true)) (.marker "restore.mounted"))
+      obtain ⟨b1, b2, b3, b4, b5, b6, b7, b8⟩ := this
+      refine ⟨b1.trans m4, b2.trans hmc, b3.trans m3, b4.trans hmi, b5.trans hmg, ?_, ?_, ?_⟩
+      · intro x hx
+        rcases b6 x hx with h | ⟨t, ht, rfl⟩
+        · rcases (m5 x).mp h with h | rfl
+          · exact Or.inl h
+          · exact Or.inr ⟨sn, List.mem_cons_self .., rfl⟩
+        · exact Or.inr ⟨t, List.mem_cons_of_mem _ ht, rfl⟩
+      · intro x hx; exact b7 x ((m5 x).mpr (Or.inl hx))
+      · intro hok t ht
+        rcases List.mem_cons.mp ht with rfl | ht
+        · exact b7 _ m1
+        · exact b8 hok t ht
+    · split
+      · simp only [applySteps_cons]
+        have := ih (applyStep (applyStep (applyStep s (.mkdirId sn.id)) (.marker "restore.mkdir"))
+          (.fsMount sn.id sn.labels false))
+        obtain ⟨b1, b2, b3, b4, b5, b6, b7, b8⟩ := this
+        refine ⟨b1.trans m4, b2.trans hmc, b3.trans m3, b4.trans hmi, b5.trans hmg, ?_, ?_, ?_⟩
+        · intro x hx
+          rcases b6 x hx with h | ⟨t, ht, rfl⟩
+          · rcases (m5 x).mp h with h | rfl
+            · exact Or.inl h
+            · exact Or.inr ⟨sn, List.mem_cons_self .., rfl⟩
+          · exact Or.inr ⟨t, List.mem_cons_of_mem _ ht, rfl⟩
+        · intro x hx; exact b7 x ((m5 x).mpr (Or.inl hx))
+        · intro hok t ht
+          rcases List.mem_cons.mp ht with rfl | ht
+          · exact b7 _ m1
+          · exact b8 hok t ht
+      · simp only [applySteps_cons, applySteps_nil]
+        refine ⟨m4, hmc, m3, hmi, hmg, ?_, ?_, ?_⟩
+        · intro x hx
+          rcases (m5 x).mp hx with h | rfl
+          · exact Or.inl h
+          · exact Or.inr ⟨sn, List.mem_cons_self .., rfl⟩
+        · intro x hx; exact (m5 x).mpr (Or.inl hx)
+        · intro hok; cases hok
+
+/-! ### every live snapshot has its directory (quiescent states) -/
+
+def AllDirs (s : State) : Prop := ∀ a ∈ s.snaps, Dir.id a.id ∈ s.dirs
+
+theorem allDirs_step {s : State} (h : AllDirs s) {st : Step} (hs : Safe false s st) : AllDirs (applyStep s st) := by
+  cases st with
+  | mkTemp t => intro a ha; exact List.mem_append_left _ (h a ha)
+  | rename t id =>
+    intro a ha
+    show Dir.id a.id ∈ (s.dirs.filter (fun d => d != Dir.temp t)) ++ [Dir.id id]
+    apply List.mem_append_left
+    rw [filter_ne_mem]; exact ⟨h a ha, by simp⟩
+  | txCreate sn =>
+    intro a ha
+    rcases mem_insertSnap.mp ha with rfl | ha
+    · exact hs
+    · exact h a ha
+  | fsMount id l ok => cases ok <;> exact h
+  | txCommitActive key name lb =>
+    intro a ha
+    simp only [applyStep, commitActive] at ha
+    split at ha
+    · exact h a ha
+    · rename_i sn hf
+      rcases mem_insertSnap.mp ha with rfl | ha
+      · exact h sn (findKey_some hf).1
+      · exact h a (mem_removeKey.mp ha).1
+  | txRemove key => intro a ha; exact h a (mem_removeKey.mp ha).1
+  | txUpdate key lb =>
+    intro a ha
+    obtain ⟨y, hy, rfl⟩ := mem_updateLabels.mp ha
+    have := h y hy
+    split <;> exact this
+  | fsUnmount d ok => cases d <;> exact h
+  | rmdir d =>
+    intro a ha
+    show Dir.id a.id ∈ s.dirs.filter (fun x => x != d)
+    rw [filter_ne_mem]
+    refine ⟨h a ha, ?_⟩
+    rintro rfl
+    rcases hs with hl | ⟨hc, _⟩
+    · simp only [liveDir, List.any_eq_false] at hl
+      exact hl a ha (by simp)
+    · cases hc
+  | fsCheck id ok => exact h
+  | mkdirId id =>
+    intro a ha
+    have ha' : a ∈ s.snaps := by rw [← (mkdirId_facts s id).2.2.2.1]; exact ha
+    exact ((mkdirId_facts s id).2.2.2.2 _).mpr (Or.inl (h a ha'))
+  | dbClose => exact h
+  | crash cfg => exact h
+  | opened => exact h
+  | marker m => exact h
+
+theorem allDirs_steps {l : List Step} : ∀ {s : State}, AllDirs s → AllSteps (Safe false) s l → AllDirs (applySteps s l) := by
+  induction l with
+  | nil => intro s h _; exact h
+  | cons st r ih => intro s h hs; exact ih (allDirs_step h hs.1) hs.2
+
+/-- quiescent invariant: a live snapshot lacks its directory only if it is remote and the
+snapshotter is closed (Close deletes the directories of remote snapshots, restore recreates them) -/
+def QDirs (s : State) : Prop :=
+  ∀ a ∈ s.snaps, Dir.id a.id ∈ s.dirs ∨ (isRemote a.labels = true ∧ s.closed = true)
+
+theorem plan_closed {s : State} (hc : s.closed = true) (orc : Oracle) (op : Op) (hnr : ∀ cfg, op ≠ .restart cfg) :
+    plan s orc op = ([], .err .other) := by
+  cases op with
+  | restart cfg => exact absurd rfl (hnr cfg)
+  | _ => simp [plan, hc]
+
+theorem qdirs_runOp {s : State} (hinv : Inv s) (hq : QDirs s) (orc : Oracle) (op : Op)
+    (hres : ∀ cfg, op = .restart cfg → cfg.noRestore = false) : QDirs (runOp s orc op).1 := by
+  unfold runOp
+  by_cases hrs : ∃ cfg, op = .restart cfg
+  · obtain ⟨cfg, rfl⟩ := hrs
+    have hnr := hres cfg rfl
+    simp only [plan, restartPlan, hnr, Bool.false_eq_true, if_false]
+    obtain ⟨r1, r2, _, _, _, _, r7, r8⟩ := restoreSteps_state cfg.allowInvalid orc (remoteOf s.snaps) (applyStep s (.crash cfg))
+    split
+    · rename_i hok
+      simp only [applySteps_cons, applySteps_append, applySteps_nil]
+      intro a ha
+      have ha' : a ∈ s.snaps := by
+        have : a ∈ (applySteps (applyStep s (.crash cfg)) (restoreSteps cfg.allowInvalid orc (remoteOf s.snaps)).1).snaps := ha
+        rw [r1] at this; exact this
+      left
+      show Dir.id a.id ∈ (applySteps (applyStep s (.crash cfg)) (restoreSteps cfg.allowInvalid orc (remoteOf s.snaps)).1).dirs
+      rcases hq a ha' with hd | ⟨hr, _⟩
+      · exact r7 _ hd
+      · exact r8 hok a (List.mem_filter.mpr ⟨ha', hr⟩)
+    · simp only [applySteps_cons]
+      intro a ha
+      rw [r1] at ha
+      have ha' : a ∈ s.snaps := ha
+      rcases hq a ha' with hd | ⟨hr, _⟩
+      · exact Or.inl (r7 _ hd)
+      · right; exact ⟨hr, by rw [r2]; rfl⟩
+  · have hnr : ∀ cfg, op ≠ .restart cfg := fun cfg e => hrs ⟨cfg, e⟩
+    by_cases hcl : s.closed = true
+    · rw [plan_closed hcl orc op hnr]; exact hq
+    · have hopen : s.closed = false := by simpa using hcl
+      have had : AllDirs s := by
+        intro a ha
+        rcases hq a ha with h | ⟨_, h⟩
+        · exact h
+        · rw [hopen] at h; cases h
+      by_cases hclose : ∃ order, op = .close order
+      · obtain ⟨order, rfl⟩ := hclose
+        simp only [plan, hopen, Bool.false_eq_true, if_false, closePlan, applySteps_append]
+        obtain ⟨c1, c2, _, _, _, c6, _⟩ := cleanupSteps_state orc (arrange order (s.dirs.filter (fun d => remoteDir s.snaps d))) s
+        intro a ha
+        have ha' : a ∈ s.snaps := by
+          have : a ∈ (applySteps s (cleanupSteps orc (arrange order (s.dirs.filter (fun d => remoteDir s.snaps d))))).snaps := ha
+          rw [c1] at this; exact this
+        by_cases hin : Dir.id a.id ∈ arrange order (s.dirs.filter (fun d => remoteDir s.snaps d))
+        · right
+          rw [mem_arrange] at hin
+          have hrd := (List.mem_filter.mp hin).2
+          simp only [remoteDir, List.any_eq_true, Bool.and_eq_true, beq_iff_eq] at hrd
+          obtain ⟨b, hb, hbid, hbr⟩ := hrd
+          have : b = a := hinv.idInj hb ha' hbid
+          rw [← this]
+          exact ⟨hbr, rfl⟩
+        · left
+          show Dir.id a.id ∈ (applySteps s (cleanupSteps orc _)).dirs
+          exact (c6 _).mpr ⟨had a ha', hin⟩
+      · have hs := plan_safe hinv orc op (fun order e => hclose ⟨order, e⟩)
+        have := allDirs_steps had hs
+        intro a ha
+        exact Or.inl (this a ha)
+
+/-- every restart in the history restores (NoRestore is off) -/
+def RestoreOn (hist : List (Op × Oracle)) : Prop := ∀ p ∈ hist, ∀ cfg, p.1 = .restart cfg → cfg.noRestore = false
+
+theorem qdirs_runOps {s : State} (hinv : Inv s) (hq : QDirs s) (hist : List (Op × Oracle)) (hro : RestoreOn hist) :
+    QDirs (runOps s hist) := by
+  induction hist generalizing s with
+  | nil => exact hq
+  | cons x r ih =>
+    apply ih (inv_runOp hinv x.2 x.1) (qdirs_runOp hinv hq x.2 x.1 (hro x (List.mem_cons_self ..)))
+    intro p hp; exact hro p (List.mem_cons_of_mem _ hp)
+
+theorem qdirs_init (cfg : Config) : QDirs (init cfg) := by
+  intro a ha; simp [init] at ha
+
+/-! ### the remote label (calls that do not set it themselves) -/
+
+/-- the caller does not put the remote label into the labels it supplies -/
+def CleanOp : Op → Prop
+  | .prepare _ _ l => isRemote l = false
+  | .view _ _ l => isRemote l = false
+  | .commit _ _ l => isRemote l = false
+  | .update _ lk _ => lk ≠ remoteLabel
+  | _ => True
+
+/-- the target named by a `Prepare` -/
+def targetOf : Op → Option String
+  | .prepare _ _ l => lget l targetLabel
+  | _ => none
+
+def Step.isLabelStep : Step → Bool
+  | .txCreate _ => true
+  | .txCommitActive _ _ _ => true
+  | .txUpdate _ _ => true
+  | _ => false
+
+/-- Side conditions about the remote label: records are created without it, `Update` keeps it as it
+is, and it is only ever set by the internal commit of a `Prepare` naming that target, on a snapshot
+that carries a live backend mount. -/
+def RemoteSafe (tgt : Option String) (s : State) : Step → Prop
+  | .txCreate sn => isRemote sn.labels = false
+  | .txCommitActive key name lb => isRemote lb = true →
+      tgt = some name ∧ ∃ sn, findKey s.snaps key = some sn ∧ sn.id ∈ s.mounts
+  | .txUpdate key lb => ∀ sn, findKey s.snaps key = some sn → isRemote lb = isRemote sn.labels
+  | _ => True
+
+theorem remoteSafe_of_notLabel {tgt : Option String} {s : State} {st : Step} (h : st.isLabelStep = false) :
+    RemoteSafe tgt s st := by
+  cases st <;> first | trivial | (simp [Step.isLabelStep] at h)
+
+theorem allSteps_notLabel {tgt : Option String} {l : List Step} (h : ∀ st ∈ l, st.isLabelStep = false) (s : State) :
+    AllSteps (RemoteSafe tgt) s l :=
+  allSteps_of_forall (fun st hst _ => remoteSafe_of_notLabel (h st hst)) s
+
+theorem cleanupSteps_notLabel (orc : Oracle) (ds : List Dir) : ∀ st ∈ cleanupSteps orc ds, st.isLabelStep = false := by
+  intro st hst
+  unfold cleanupSteps at hst
+  rw [List.mem_flatMap] at hst
+  obtain ⟨d, _, hd⟩ := hst
+  simp only [cleanupDir, List.mem_cons, List.not_mem_nil, or_false] at hd
+  rcases hd with rfl | rfl | rfl | rfl <;> rfl
+
+theorem cleanupDir_notLabel (orc : Oracle) (d : Dir) : ∀ st ∈ cleanupDir orc d, st.isLabelStep = false := by
+  intro st hd
+  simp only [cleanupDir, List.mem_cons, List.not_mem_nil, or_false] at hd
+  rcases hd with rfl | rfl | rfl | rfl <;> rfl
+
+theorem mountsPlan_notLabel (s : State) (orc : Oracle) (sn : Snap) (pids : List Nat) (ck : String) :
+    ∀ st ∈ (mountsPlan s orc sn pids ck).1, st.isLabelStep = false := by
+  unfold mountsPlan
+  split
+  · simp
+  · split
+    · simp
+    · simp only []
+      split <;> (intro st hst; simp only [List.mem_map] at hst; obtain ⟨c, _, rfl⟩ := hst; rfl)
+
+theorem restoreSteps_notLabel (allow : Bool) (orc : Oracle) (tasks : List Snap) :
+    ∀ st ∈ (restoreSteps allow orc tasks).1, st.isLabelStep = false := by
+  induction tasks with
+  | nil => simp [restoreSteps]
+  | cons sn rest ih =>
+    unfold restoreSteps
+    split
+    · intro st hst
+      simp only [List.mem_cons] at hst
+      rcases hst with rfl | rfl | rfl | rfl | hst <;> first | rfl | exact ih st hst
+    · split
+      · intro st hst
+        simp only [List.mem_cons] at hst
+        rcases hst with rfl | rfl | rfl | hst <;> first | rfl | exact ih st hst
+      · simp [Step.isLabelStep]
+
+theorem lget_ldel_ne {l : Labels} {k k' : String} (h : k' ≠ k) : lget (ldel l k) k' = lget l k' := by
+  induction l with
+  | nil => rfl
+  | cons p r ih =>
+    obtain ⟨a, b⟩ := p
+    simp only [ldel, List.filter_cons]
+    by_cases hak : a = k
+    · subst hak
+      simp only [bne_self_eq_false, Bool.false_eq_true, if_false]
+      rw [show lget ((a, b) :: r) k' = lget r k' by simp [lget, Ne.symm h]]
+      exact ih
+    · have : (a != k) = true := by simp [hak]
+      simp only [this, if_true, lget]
+      split
+      · rfl
+      · exact ih
+
+theorem isRemote_ldel_ne {l : Labels} {k : String} (h : k ≠ remoteLabel) : isRemote (ldel l k) = isRemote l := by
+  simp only [isRemote, lhas, lget_ldel_ne (Ne.symm h)]
+
+theorem isRemote_lset_ne {l : Labels} {k v : String} (h : k ≠ remoteLabel) : isRemote (lset l k v) = isRemote l := by
+  simp only [isRemote, lhas, lset, lget, h, if_false, lget_ldel_ne (Ne.symm h)]
+
+theorem createPlan_remoteSafe {tgt : Option String} (s : State) (orc : Oracle) (kind : Kind) (key parent : String)
+    (labels : Labels) (hl : isRemote labels = false) :
+    AllSteps (RemoteSafe tgt) s (createPlan s orc kind key parent labels).1 := by
+  unfold createPlan
+  simp only []
+  split
+  · exact ⟨trivial, trivial, allSteps_notLabel (cleanupDir_notLabel _ _) _⟩
+  · split
+    · exact ⟨trivial, trivial, trivial, allSteps_notLabel (cleanupDir_notLabel _ _) _⟩
+    · split
+      · refine ⟨trivial, trivial, trivial, ?_⟩
+        rw [allSteps_append]
+        exact ⟨allSteps_notLabel (cleanupDir_notLabel _ _) _, allSteps_notLabel (cleanupDir_notLabel _ _) _⟩
+      · exact ⟨trivial, trivial, trivial, trivial, trivial, hl, trivial, trivial⟩
+
+theorem plan_remoteSafe {s : State} (hinv : Inv s) (orc : Oracle) (op : Op) (hclean : CleanOp op) :
+    AllSteps (RemoteSafe (targetOf op)) s (plan s orc op).1 := by
+  cases op with
+  | restart cfg =>
+    apply allSteps_notLabel
+    simp only [plan, restartPlan]
+    split
+    · simp [Step.isLabelStep]
+    · split
+      · intro st hst
+        simp only [List.mem_cons, List.mem_append, List.not_mem_nil, or_false] at hst
+        rcases hst with rfl | hst | rfl
+        · rfl
+        · exact restoreSteps_notLabel _ _ _ st hst
+        · rfl
+      · intro st hst
+        simp only [List.mem_cons] at hst
+        rcases hst with rfl | hst
+        · rfl
+        · exact restoreSteps_notLabel _ _ _ st hst
+  | prepare key parent labels =>
+    simp only [plan]; split
+    · trivial
+    · have hc := createPlan_remoteSafe (tgt := targetOf (.prepare key parent labels)) s orc .active key parent labels hclean
+      have hok := createPlan_stepsOk hinv orc .active key parent labels
+      unfold preparePlan
+      split
+      · rename_i st1 e heq; rw [heq] at hc; exact hc
+      · rename_i st1 sn pids heq
+        rw [heq] at hc hok
+        obtain ⟨ps, _, _, _, _, hsn, hst⟩ := createPlan_ok heq
+        have hinv1 := inv_steps hinv hok
+        have hmem : sn ∈ (applySteps s st1).snaps := by rw [hst]; exact mem_insertSnap.mpr (Or.inl rfl)
+        have hkey : sn.key = key := by rw [hsn]
+        have hfk : findKey (applySteps s st1).snaps key = some sn := by rw [← hkey]; exact hinv1.findKey_of_mem hmem
+        simp only []
+        split
+        · rw [allSteps_append]
+          exact ⟨hc, allSteps_notLabel (mountsPlan_notLabel _ _ _ _ _) _⟩
+        · rename_i target htl
+          split
+          · split
+            · rw [allSteps_append]
+              exact ⟨hc, allSteps_notLabel (by simp [Step.isLabelStep]) _⟩
+            · split
+              · rw [allSteps_append, allSteps_append]
+                exact ⟨⟨hc, allSteps_notLabel (by simp [Step.isLabelStep]) _⟩, allSteps_notLabel (by simp [Step.isLabelStep]) _⟩
+              · rw [allSteps_append, allSteps_append]
+                refine ⟨⟨hc, allSteps_notLabel (by simp [Step.isLabelStep]) _⟩, trivial, ?_, trivial, trivial⟩
+                intro _
+                refine ⟨htl, sn, ?_, ?_⟩
+                · simpa [applySteps, applyStep] using hfk
+                · simp [applySteps, applyStep]
+          · rw [allSteps_append]
+            exact ⟨hc, trivial, allSteps_notLabel (mountsPlan_notLabel _ _ _ _ _) _⟩
+  | view key parent labels =>
+    simp only [plan]; split
+    · trivial
+    · have hc := createPlan_remoteSafe (tgt := targetOf (.view key parent labels)) s orc .view key parent labels hclean
+      unfold viewPlan
+      split
+      · rename_i st1 e heq; rw [heq] at hc; exact hc
+      · rename_i st1 sn pids heq
+        rw [heq] at hc
+        rw [allSteps_append]
+        exact ⟨hc, allSteps_notLabel (mountsPlan_notLabel _ _ _ _ _) _⟩
+  | commit name key labels =>
+    simp only [plan]; split
+    · trivial
+    · unfold commitPlan
+      split
+      · trivial
+      · split
+        · trivial
+        · split
+          · trivial
+          · split
+            · trivial
+            · split
+              · trivial
+              · refine ⟨trivial, ?_, trivial⟩
+                intro hr
+                have : isRemote labels = false := hclean
+                rw [this] at hr; cases hr
+  | mounts key =>
+    simp only [plan]; split
+    · trivial
+    · apply allSteps_notLabel
+      unfold mountsOpPlan
+      split
+      · simp
+      · split
+        · simp
+        · split
+          · simp
+          · exact mountsPlan_notLabel _ _ _ _ _
+  | remove key order =>
+    simp only [plan]; split
+    · trivial
+    · unfold removePlan
+      split
+      · trivial
+      · split
+        · trivial
+        · split
+          · exact ⟨trivial, trivial⟩
+          · exact ⟨trivial, trivial, allSteps_notLabel (cleanupSteps_notLabel _ _) _⟩
+  | cleanup order =>
+    simp only [plan]; split
+    · trivial
+    · exact allSteps_notLabel (cleanupSteps_notLabel _ _) _
+  | walk =>
+    simp only [plan]; split
+    · trivial
+    · split <;> trivial
+  | stat key =>
+    simp only [plan]; split
+    · trivial
+    · split <;> trivial
+  | update key lk lv =>
+    simp only [plan]; split
+    · trivial
+    · unfold updatePlan
+      split
+      · trivial
+      · rename_i sn hf
+        refine ⟨?_, trivial⟩
+        intro sn' hf'
+        rw [hf] at hf'
+        cases hf'
+        have hlk : lk ≠ remoteLabel := hclean
+        split
+        · exact isRemote_ldel_ne hlk
+        · exact isRemote_lset_ne hlk
+  | close order =>
+    simp only [plan]; split
+    · trivial
+    · unfold closePlan
+      rw [allSteps_append]
+      exact ⟨allSteps_notLabel (cleanupSteps_notLabel _ _) _, trivial, trivial, trivial⟩
+
+/-- invariant of all small-step states of histories whose calls do not set the remote label
+themselves: only committed snapshots are remote, and only a remote snapshot may lack its directory. -/
+structure CInv (s : State) : Prop where
+  remoteCommitted : ∀ a ∈ s.snaps, isRemote a.labels = true → a.kind = .committed
+  dirOrRemote : ∀ a ∈ s.snaps, Dir.id a.id ∈ s.dirs ∨ isRemote a.labels = true
+
+theorem cinv_step {s : State} (hinv : Inv s) (h : CInv s) {st : Step} {c : Bool} {tgt : Option String}
+    (hok : StepOk s st) (hs : Safe c s st) (hr : RemoteSafe tgt s st) : CInv (applyStep s st) := by
+  cases st with
+  | mkTemp t =>
+    refine ⟨h.remoteCommitted, ?_⟩
+    intro a ha
+    rcases h.dirOrRemote a ha with hd | hd
+    · exact Or.inl (List.mem_append_left _ hd)
+    · exact Or.inr hd
+  | rename t id =>
+    refine ⟨h.remoteCommitted, ?_⟩
+    intro a ha
+    rcases h.dirOrRemote a ha with hd | hd
+    · left
+      show Dir.id a.id ∈ (s.dirs.filter (fun d => d != Dir.temp t)) ++ [Dir.id id]
+      apply List.mem_append_left
+      rw [filter_ne_mem]; exact ⟨hd, by simp⟩
+    · exact Or.inr hd
+  | txCreate sn =>
+    have hnr : isRemote sn.labels = false := hr
+    refine ⟨?_, ?_⟩
+    · intro a ha har
+      rcases mem_insertSnap.mp ha with rfl | ha
+      · rw [hnr] at har; cases har
+      · exact h.remoteCommitted a ha har
+    · intro a ha
+      rcases mem_insertSnap.mp ha with rfl | ha
+      · exact Or.inl hs
+      · exact h.dirOrRemote a ha
+  | fsMount id l ok => cases ok <;> exact ⟨h.remoteCommitted, h.dirOrRemote⟩
+  | txCommitActive key name lb =>
+    obtain ⟨_, _, sn, hf, hkind⟩ := hok
+    have hsn := findKey_some hf
+    simp only [applyStep, commitActive, hf]
+    refine ⟨?_, ?_⟩
+    · intro a ha har
+      rcases mem_insertSnap.mp ha with rfl | ha
+      · rfl
+      · exact h.remoteCommitted a (mem_removeKey.mp ha).1 har
+    · intro a ha
+      rcases mem_insertSnap.mp ha with rfl | ha
+      · left
+        rcases h.dirOrRemote sn hsn.1 with hd | hd
+        · exact hd
+        · have := h.remoteCommitted sn hsn.1 hd
+          rw [hkind] at this; cases this
+      · exact h.dirOrRemote a (mem_removeKey.mp ha).1
+  | txRemove key =>
+    exact ⟨fun a ha => h.remoteCommitted a (mem_removeKey.mp ha).1, fun a ha => h.dirOrRemote a (mem_removeKey.mp ha).1⟩
+  | txUpdate key lb =>
+    have hr' : ∀ sn, findKey s.snaps key = some sn → isRemote lb = isRemote sn.labels := hr
+    have key_fact : ∀ y ∈ s.snaps, isRemote (if y.key == key then { y with labels := lb } else y).labels = isRemote y.labels := by
+      intro y hy
+      split
+      · rename_i hk
+        have hk' : y.key = key := by simpa using hk
+        exact hr' y (by rw [← hk']; exact hinv.findKey_of_mem hy)
+      · rfl
+    refine ⟨?_, ?_⟩
+    · intro a ha har
+      obtain ⟨y, hy, rfl⟩ := mem_updateLabels.mp ha
+      rw [key_fact y hy] at har
+      have := h.remoteCommitted y hy har
+      split <;> exact this
+    · intro a ha
+      obtain ⟨y, hy, rfl⟩ := mem_updateLabels.mp ha
+      rw [key_fact y hy]
+      have := h.dirOrRemote y hy
+      split <;> exact this
+  | fsUnmount d ok => cases d <;> exact ⟨h.remoteCommitted, h.dirOrRemote⟩
+  | rmdir d =>
+    refine ⟨h.remoteCommitted, ?_⟩
+    intro a ha
+    by_cases hda : Dir.id a.id = d
+    · subst hda
+      rcases hs with hl | ⟨_, hrd⟩
+      · simp only [liveDir, List.any_eq_false] at hl
+        exact absurd (by simp) (hl a ha)
+      · right
+        simp only [remoteDir, List.any_eq_true, Bool.and_eq_true, beq_iff_eq] at hrd
+        obtain ⟨b, hb, hbid, hbr⟩ := hrd
+        rw [← hinv.idInj hb ha hbid]; exact hbr
+    · rcases h.dirOrRemote a ha with hd | hd
+      · left
+        show Dir.id a.id ∈ s.dirs.filter (fun x => x != d)
+        rw [filter_ne_mem]; exact ⟨hd, hda⟩
+      · exact Or.inr hd
+  | fsCheck id ok => exact ⟨h.remoteCommitted, h.dirOrRemote⟩
+  | mkdirId id =>
+    obtain ⟨_, _, _, m4, m5⟩ := mkdirId_facts s id
+    refine ⟨?_, ?_⟩
+    · intro a ha; rw [m4] at ha; exact h.remoteCommitted a ha
+    · intro a ha
+      rw [m4] at ha
+      rcases h.dirOrRemote a ha with hd | hd
+      · exact Or.inl ((m5 _).mpr (Or.inl hd))
+      · exact Or.inr hd
+  | dbClose => exact ⟨h.remoteCommitted, h.dirOrRemote⟩
+  | crash cfg => exact ⟨h.remoteCommitted, h.dirOrRemote⟩
+  | opened => exact ⟨h.remoteCommitted, h.dirOrRemote⟩
+  | marker m => exact h
+
+theorem allSteps_take {P : State → Step → Prop} {s : State} {steps : List Step} (h : AllSteps P s steps) (k : Nat) :
+    AllSteps P s (steps.take k) := by
+  induction steps generalizing s k with
+  | nil => simp [AllSteps]
+  | cons st r ih =>
+    cases k with
+    | zero => simp [AllSteps]
+    | succ k => exact ⟨h.1, ih h.2 k⟩
+
+theorem cinv_steps {c : Bool} {tgt : Option String} {l : List Step} : ∀ {s : State}, Inv s → CInv s → StepsOk s l →
+    AllSteps (Safe c) s l → AllSteps (RemoteSafe tgt) s l → CInv (applySteps s l) := by
+  induction l with
+  | nil => intro s _ h _ _ _; exact h
+  | cons st r ih =>
+    intro s hinv h hok hs hr
+    exact ih (inv_step hinv hok.1) (cinv_step hinv h hok.1 hs.1 hr.1) hok.2 hs.2 hr.2
+
+def closingOf : Op → Bool
+  | .close _ => true
+  | _ => false
+
+theorem plan_safe' {s : State} (h : Inv s) (orc : Oracle) (op : Op) :
+    AllSteps (Safe (closingOf op)) s (plan s orc op).1 := by
+  by_cases hc : ∃ order, op = .close order
+  · obtain ⟨order, rfl⟩ := hc
+    simp only [plan, closingOf]
+    split
+    · trivial
+    · exact closePlan_safe s orc order
+  · have : closingOf op = false := by
+      cases op <;> first | rfl | exact absurd ⟨_, rfl⟩ hc
+    rw [this]
+    exact plan_safe h orc op (fun order e => hc ⟨order, e⟩)
+
+theorem cinv_init (cfg : Config) : CInv (init cfg) := by
+  constructor <;> (intro a ha; simp [init] at ha)
+
+theorem cinv_runOp {s : State} (hinv : Inv s) (h : CInv s) (orc : Oracle) (op : Op) (hclean : CleanOp op) :
+    CInv (runOp s orc op).1 :=
+  cinv_steps hinv h (plan_stepsOk hinv orc op) (plan_safe' hinv orc op) (plan_remoteSafe hinv orc op hclean)
+
+/-- no call of the history sets the remote label itself -/
+def CleanHist (hist : List (Op × Oracle)) : Prop := ∀ p ∈ hist, CleanOp p.1
+
+theorem cinv_runOps {s : State} (hinv : Inv s) (h : CInv s) (hist : List (Op × Oracle)) (hc : CleanHist hist) :
+    CInv (runOps s hist) := by
+  induction hist generalizing s with
+  | nil => exact h
+  | cons x r ih =>
+    exact ih (inv_runOp hinv x.2 x.1) (cinv_runOp hinv h x.2 x.1 (hc x (List.mem_cons_self ..)))
+      (fun p hp => hc p (List.mem_cons_of_mem _ hp))
+
+/-- states a crash can expose in histories whose calls do not set the remote label themselves -/
+def CleanReachable (cfg0 : Config) (s : State) : Prop :=
+  ∃ (hist : List (Op × Oracle)) (op : Op) (orc : Oracle) (k : Nat), CleanHist hist ∧ CleanOp op ∧
+    s = applySteps (runOps (init cfg0) hist) ((plan (runOps (init cfg0) hist) orc op).1.take k)
+
+theorem CleanReachable.reachable {cfg0 : Config} {s : State} (h : CleanReachable cfg0 s) : Reachable cfg0 s := by
+  obtain ⟨hist, op, orc, k, _, _, rfl⟩ := h
+  exact ⟨hist, op, orc, k, rfl⟩
+
+theorem cinv_reachable {cfg0 : Config} {s : State} (h : CleanReachable cfg0 s) : CInv s := by
+  obtain ⟨hist, op, orc, k, hh, hop, rfl⟩ := h
+  have hinv := inv_runOps (inv_init cfg0) hist
+  exact cinv_steps hinv (cinv_runOps (inv_init cfg0) (cinv_init cfg0) hist hh)
+    (stepsOk_take (plan_stepsOk hinv orc op) k) (allSteps_take (plan_safe' hinv orc op) k)
+    (allSteps_take (plan_remoteSafe hinv orc op hop) k)
+
+/-! ### restore -/
+
+theorem restoreSteps_fails_iff (allow : Bool) (orc : Oracle) (tasks : List Snap) :
+    (restoreSteps allow orc tasks).2 = false ↔ allow = false ∧ ∃ t ∈ tasks, orc.mountOk t.id = false := by
+  induction tasks with
+  | nil => simp [restoreSteps]
+  | cons sn rest ih =>
+    unfold restoreSteps
+    by_cases hm : orc.mountOk sn.id = true
+    · simp only [hm, if_true, ih, List.mem_cons, exists_eq_or_imp, Bool.true_eq_false, false_or]
+    · have hm' : orc.mountOk sn.id = false := by simpa using hm
+      cases allow with
+      | true => simp only [hm', Bool.false_eq_true, if_false, if_true, ih, Bool.true_eq_false, false_and]
+      | false => simp [hm']
+
+theorem restoreSteps_mounts (allow : Bool) (orc : Oracle) (tasks : List Snap) : ∀ (s : State),
+    (restoreSteps allow orc tasks).2 = true →
+    ∀ n, n ∈ (applySteps s (restoreSteps allow orc tasks).1).mounts ↔
+      n ∈ s.mounts ∨ ∃ t ∈ tasks, t.id = n ∧ orc.mountOk n = true := by
+  induction tasks with
+  | nil => intro s _ n; simp [restoreSteps, applySteps]
+  | cons sn rest ih =>
+    intro s hok n
+    obtain ⟨_, m2, _, _, _⟩ := mkdirId_facts s sn.id
+    unfold restoreSteps at hok ⊢
+    by_cases hm : orc.mountOk sn.id = true
+    · simp only [hm, if_true] at hok ⊢
+      simp only [applySteps_cons]
+      rw [ih _ hok]
+      have hmm : (applyStep (applyStep (applyStep (applyStep s (.mkdirId sn.id)) (.marker "restore.mkdir"))
+          (.fsMount sn.id sn.labels true)) (.marker "restore.mounted")).mounts = sn.id :: s.mounts := by
+        show sn.id :: (applyStep s (.mkdirId sn.id)).mounts = _
+        rw [m2]
+      rw [hmm]
+      simp only [List.mem_cons, exists_eq_or_imp]
+      constructor
+      · rintro ((rfl | h) | h)
+        · exact Or.inr (Or.inl ⟨rfl, hm⟩)
+        · exact Or.inl h
+        · exact Or.inr (Or.inr h)
+      · rintro (h | ⟨rfl, _⟩ | h)
+        · exact Or.inl (Or.inr h)
+        · exact Or.inl (Or.inl rfl)
+        · exact Or.inr h
+    · have hm' : orc.mountOk sn.id = false := by simpa using hm
+      cases allow with
+      | false => simp [hm'] at hok
+      | true =>
+        simp only [hm', Bool.false_eq_true, if_false, if_true] at hok ⊢
+        simp only [applySteps_cons]
+        rw [ih _ hok]
+        have hmm : (applyStep (applyStep (applyStep s (.mkdirId sn.id)) (.marker "restore.mkdir"))
+            (.fsMount sn.id sn.labels false)).mounts = s.mounts := by
+          show (applyStep s (.mkdirId sn.id)).mounts = _
+          rw [m2]
+        rw [hmm]
+        simp only [List.mem_cons, exists_eq_or_imp]
+        constructor
+        · rintro (h | h)
+          · exact Or.inl h
+          · exact Or.inr (Or.inr h)
+        · rintro (h | ⟨rfl, h⟩ | h)
+          · exact Or.inl h
+          · rw [hm'] at h; cases h
+          · exact Or.inr h
+
+/-- every Mount issued by restore is for a task, with the task's recorded labels and the oracle's answer -/
+theorem restoreSteps_mount_steps (allow : Bool) (orc : Oracle) (tasks : List Snap) :
+    ∀ id l ok, Step.fsMount id l ok ∈ (restoreSteps allow orc tasks).1 →
+      ∃ t ∈ tasks, id = t.id ∧ l = t.labels ∧ ok = orc.mountOk t.id := by
+  induction tasks with
+  | nil => intro id l ok h; simp [restoreSteps] at h
+  | cons sn rest ih =>
+    intro id l ok h
+    unfold restoreSteps at h
+    split at h
+    · rename_i hm
+      simp only [List.mem_cons, Step.fsMount.injEq, reduceCtorEq, false_or] at h
+      rcases h with ⟨rfl, rfl, rfl⟩ | h
+      · exact ⟨sn, List.mem_cons_self .., rfl, rfl, hm.symm⟩
+      · obtain ⟨t, ht, h⟩ := ih id l ok h
+        exact ⟨t, List.mem_cons_of_mem _ ht, h⟩
+    · rename_i hm
+      have hm' : orc.mountOk sn.id = false := by simpa using hm
+      split at h
+      · simp only [List.mem_cons, Step.fsMount.injEq, reduceCtorEq, false_or] at h
+        rcases h with ⟨rfl, rfl, rfl⟩ | h
+        · exact ⟨sn, List.mem_cons_self .., rfl, rfl, hm'.symm⟩
+        · obtain ⟨t, ht, h⟩ := ih id l ok h
+          exact ⟨t, List.mem_cons_of_mem _ ht, h⟩
+      · simp only [List.mem_cons, Step.fsMount.injEq, reduceCtorEq, false_or, List.not_mem_nil, or_false] at h
+        obtain ⟨rfl, rfl, rfl⟩ := h
+        exact ⟨sn, List.mem_cons_self .., rfl, rfl, hm'.symm⟩
+
+/-- when restore succeeds, every task got its Mount call -/
+theorem restoreSteps_all_mounted (allow : Bool) (orc : Oracle) (tasks : List Snap)
+    (hok : (restoreSteps allow orc tasks).2 = true) :
+    ∀ t ∈ tasks, Step.fsMount t.id t.labels (orc.mountOk t.id) ∈ (restoreSteps allow orc tasks).1 := by
+  induction tasks with
+  | nil => intro t ht; cases ht
+  | cons sn rest ih =>
+    intro t ht
+    unfold restoreSteps at hok ⊢
+    by_cases hm : orc.mountOk sn.id = true
+    · simp only [hm, if_true] at hok ⊢
+      rcases List.mem_cons.mp ht with rfl | ht
+      · simp [hm]
+      · have := ih hok t ht
+        simp [this]
+    · have hm' : orc.mountOk sn.id = false := by simpa using hm
+      cases allow with
+      | false => simp [hm'] at hok
+      | true =>
+        simp only [hm', Bool.false_eq_true, if_false, if_true] at hok ⊢
+        rcases List.mem_cons.mp ht with rfl | ht
+        · simp [hm']
+        · have := ih hok t ht
+          simp [this]
+
+/-- keys whose records a step modifies or removes -/
+def Step.touches : Step → List String
+  | .txCommitActive key _ _ => [key]
+  | .txRemove key => [key]
+  | .txUpdate key _ => [key]
+  | _ => []
+
+theorem mem_applyStep_of_untouched {s : State} {st : Step} {a : Snap} (ha : a ∈ s.snaps)
+    (hk : a.key ∉ st.touches) : a ∈ (applyStep s st).snaps := by
+  cases st with
+  | txCreate sn => exact mem_insertSnap.mpr (Or.inr ha)
+  | txCommitActive key name lb =>
+    simp only [Step.touches, List.mem_singleton] at hk
+    simp only [applyStep, commitActive]
+    split
+    · exact ha
+    · exact mem_insertSnap.mpr (Or.inr (mem_removeKey.mpr ⟨ha, hk⟩))
+  | txRemove key =>
+    simp only [Step.touches, List.mem_singleton] at hk
+    exact mem_removeKey.mpr ⟨ha, hk⟩
+  | txUpdate key lb =>
+    simp only [Step.touches, List.mem_singleton] at hk
+    refine mem_updateLabels.mpr ⟨a, ha, ?_⟩
+    have : (a.key == key) = false := by simp [hk]
+    simp [this]
+  | fsMount id l ok => cases ok <;> exact ha
+  | fsUnmount d ok => cases d <;> exact ha
+  | mkdirId id => rw [(mkdirId_facts s id).2.2.2.1]; exact ha
+  | mkTemp t => exact ha
+  | rename t id => exact ha
+  | rmdir d => exact ha
+  | fsCheck id ok => exact ha
+  | dbClose => exact ha
+  | crash cfg => exact ha
+  | opened => exact ha
+  | marker m => exact ha
+
+theorem mem_applySteps_of_untouched {l : List Step} : ∀ {s : State} {a : Snap}, a ∈ s.snaps →
+    (∀ st ∈ l, a.key ∉ st.touches) → a ∈ (applySteps s l).snaps := by
+  induction l with
+  | nil => intro s a ha _; exact ha
+  | cons st r ih =>
+    intro s a ha h
+    exact ih (mem_applyStep_of_untouched ha (h st (List.mem_cons_self ..)))
+      (fun st' hst' => h st' (List.mem_cons_of_mem _ hst'))
+
+/-- the keys a call may consume or modify: everything else acknowledged before is untouched at
+every instant of the call -/
+def consumes : Op → List String
+  | .remove k _ => [k]
+  | .commit _ k _ => [k]
+  | .update k _ _ => [k]
+  | _ => []
+
+theorem touches_nil_of_plainMeta {st : Step} (h : st.touches = []) (k : String) : k ∉ st.touches := by
+  rw [h]; exact List.not_mem_nil
+
+theorem cleanupSteps_touches (orc : Oracle) (ds : List Dir) : ∀ st ∈ cleanupSteps orc ds, st.touches = [] := by
+  intro st hst
+  unfold cleanupSteps at hst
+  rw [List.mem_flatMap] at hst
+  obtain ⟨d, _, hd⟩ := hst
+  simp only [cleanupDir, List.mem_cons, List.not_mem_nil, or_false] at hd
+  rcases hd with rfl | rfl | rfl | rfl <;> rfl
+
+theorem cleanupDir_touches (orc : Oracle) (d : Dir) : ∀ st ∈ cleanupDir orc d, st.touches = [] := by
+  intro st hd
+  simp only [cleanupDir, List.mem_cons, List.not_mem_nil, or_false] at hd
+  rcases hd with rfl | rfl | rfl | rfl <;> rfl
+
+theorem mountsPlan_touches (s : State) (orc : Oracle) (sn : Snap) (pids : List Nat) (ck : String) :
+    ∀ st ∈ (mountsPlan s orc sn pids ck).1, st.touches = [] := by
+  unfold mountsPlan
+  split
+  · simp
+  · split
+    · simp
+    · simp only []
+      split <;> (intro st hst; simp only [List.mem_map] at hst; obtain ⟨c, _, rfl⟩ := hst; rfl)
+
+theorem restoreSteps_touches (allow : Bool) (orc : Oracle) (tasks : List Snap) :
+    ∀ st ∈ (restoreSteps allow orc tasks).1, st.touches = [] := by
+  induction tasks with
+  | nil => simp [restoreSteps]
+  | cons sn rest ih =>
+    unfold restoreSteps
+    split
+    · intro st hst
+      simp only [List.mem_cons] at hst
+      rcases hst with rfl | rfl | rfl | rfl | hst <;> first | rfl | exact ih st hst
+    · split
+      · intro st hst
+        simp only [List.mem_cons] at hst
+        rcases hst with rfl | rfl | rfl | hst <;> first | rfl | exact ih st hst
+      · simp [Step.touches]
+
+theorem createPlan_touches (s : State) (orc : Oracle) (kind : Kind) (key parent : String) (labels : Labels) :
+    ∀ st ∈ (createPlan s orc kind key parent labels).1, st.touches = [] := by
+  unfold createPlan
+  simp only []
+  split
+  · intro st hst
+    simp only [List.mem_cons] at hst
+    rcases hst with rfl | rfl | hst
+    · rfl
+    · rfl
+    · exact cleanupDir_touches _ _ st hst
+  · split
+    · intro st hst
+      simp only [List.mem_cons] at hst
+      rcases hst with rfl | rfl | rfl | hst
+      · rfl
+      · rfl
+      · rfl
+      · exact cleanupDir_touches _ _ st hst
+    · split
+      · intro st hst
+        simp only [List.mem_cons, List.mem_append] at hst
+        rcases hst with rfl | rfl | rfl | hst | hst
+        · rfl
+        · rfl
+        · rfl
+        · exact cleanupDir_touches _ _ st hst
+        · exact cleanupDir_touches _ _ st hst
+      · simp [Step.touches]
+
+/-- a step of a plan touches only keys the call consumes, or keys that did not exist before the call -/
+theorem plan_touches (s : State) (orc : Oracle) (op : Op) :
+    ∀ st ∈ (plan s orc op).1, ∀ k ∈ st.touches, k ∈ consumes op ∨ hasKey s.snaps k = false := by
+  have nil_case : ∀ (l : List Step), (∀ st ∈ l, st.touches = []) →
+      ∀ st ∈ l, ∀ k ∈ st.touches, k ∈ consumes op ∨ hasKey s.snaps k = false := by
+    intro l h st hst k hk
+    rw [h st hst] at hk; cases hk
+  cases op with
+  | restart cfg =>
+    apply nil_case
+    simp only [plan, restartPlan]
+    split
+    · simp [Step.touches]
+    · split
+      · intro st hst
+        simp only [List.mem_cons, List.mem_append, List.not_mem_nil, or_false] at hst
+        rcases hst with rfl | hst | rfl
+        · rfl
+        · exact restoreSteps_touches _ _ _ st hst
+        · rfl
+      · intro st hst
+        simp only [List.mem_cons] at hst
+        rcases hst with rfl | hst
+        · rfl
+        · exact restoreSteps_touches _ _ _ st hst
+  | prepare key parent labels =>
+    simp only [plan]; split
+    · simp
+    · unfold preparePlan
+      split
+      · rename_i st1 e heq
+        apply nil_case
+        have := createPlan_touches s orc .active key parent labels
+        rw [heq] at this; exact this
+      · rename_i st1 sn pids heq
+        have hct := createPlan_touches s orc .active key parent labels
+        rw [heq] at hct
+        obtain ⟨ps, hchk, _⟩ := createPlan_ok heq
+        have hnk := (createChecks_ok hchk).2.2.1
+        simp only []
+        split
+        · apply nil_case
+          intro st hst
+          rcases List.mem_append.mp hst with h | h
+          · exact hct st h
+          · exact mountsPlan_touches _ _ _ _ _ st h
+        · split
+          · split
+            · apply nil_case
+              intro st hst
+              simp only [List.mem_append, List.mem_cons, List.not_mem_nil, or_false] at hst
+              rcases hst with h | rfl | rfl
+              · exact hct st h
+              · rfl
+              · rfl
+            · split
+              · apply nil_case
+                intro st hst
+                simp only [List.mem_append, List.mem_cons, List.not_mem_nil, or_false] at hst
+                rcases hst with (h | rfl | rfl) | rfl
+                · exact hct st h
+                · rfl
+                · rfl
+                · rfl
+              · intro st hst k hk
+                simp only [List.mem_append, List.mem_cons, List.not_mem_nil, or_false] at hst
+                rcases hst with (h | rfl | rfl) | rfl | rfl | rfl
+                · rw [hct st h] at hk; cases hk
+                · cases hk
+                · cases hk
+                · cases hk
+                · simp only [Step.touches, List.mem_singleton] at hk
+                  subst hk; exact Or.inr hnk
+                · cases hk
+          · apply nil_case
+            intro st hst
+            simp only [List.mem_append, List.mem_cons] at hst
+            rcases hst with h | rfl | h
+            · exact hct st h
+            · rfl
+            · exact mountsPlan_touches _ _ _ _ _ st h
+  | view key parent labels =>
+    simp only [plan]; split
+    · simp
+    · apply nil_case
+      unfold viewPlan
+      have hct := createPlan_touches s orc .view key parent labels
+      split
+      · rename_i st1 e heq; rw [heq] at hct; exact hct
+      · rename_i st1 sn pids heq
+        rw [heq] at hct
+        intro st hst
+        rcases List.mem_append.mp hst with h | h
+        · exact hct st h
+        · exact mountsPlan_touches _ _ _ _ _ st h
+  | commit name key labels =>
+    simp only [plan]; split
+    · simp
+    · unfold commitPlan
+      split
+      · simp
+      · split
+        · simp
+        · split
+          · simp
+          · split
+            · simp
+            · split
+              · simp
+              · intro st hst k hk
+                simp only [List.mem_cons, List.not_mem_nil, or_false] at hst
+                rcases hst with rfl | rfl
+                · cases hk
+                · simp only [Step.touches, List.mem_singleton] at hk
+                  subst hk; left; simp [consumes]
+  | mounts key =>
+    simp only [plan]; split
+    · simp
+    · apply nil_case
+      unfold mountsOpPlan
+      split
+      · simp
+      · split
+        · simp
+        · split
+          · simp
+          · exact mountsPlan_touches _ _ _ _ _
+  | remove key order =>
+    simp only [plan]; split
+    · simp
+    · unfold removePlan
+      split
+      · simp
+      · split
+        · simp
+        · split
+          · intro st hst k hk
+            simp only [List.mem_cons, List.not_mem_nil, or_false] at hst
+            subst hst
+            simp only [Step.touches, List.mem_singleton] at hk
+            subst hk; left; simp [consumes]
+          · intro st hst k hk
+            simp only [List.mem_cons] at hst
+            rcases hst with rfl | rfl | hst
+            · simp only [Step.touches, List.mem_singleton] at hk
+              subst hk; left; simp [consumes]
+            · cases hk
+            · rw [cleanupSteps_touches _ _ st hst] at hk; cases hk
+  | cleanup order =>
+    simp only [plan]; split
+    · simp
+    · exact nil_case _ (cleanupSteps_touches _ _)
+  | walk =>
+    simp only [plan]; split
+    · simp
+    · split <;> simp
+  | stat key =>
+    simp only [plan]; split
+    · simp
+    · split <;> simp
+  | update key lk lv =>
+    simp only [plan]; split
+    · simp
+    · unfold updatePlan
+      split
+      · simp
+      · intro st hst k hk
+        simp only [List.mem_cons, List.not_mem_nil, or_false] at hst
+        subst hst
+        simp only [Step.touches, List.mem_singleton] at hk
+        subst hk; left; simp [consumes]
+  | close order =>
+    simp only [plan]; split
+    · simp
+    · apply nil_case
+      unfold closePlan
+      intro st hst
+      simp only [List.mem_append, List.mem_cons, List.not_mem_nil, or_false] at hst
+      rcases hst with h | rfl | rfl
+      · exact cleanupSteps_touches _ _ st h
+      · rfl
+      · rfl
+
+theorem cleanup_exact_of_allDirs (s : State) (hopen : s.closed = false) (had : AllDirs s) (orc : Oracle) (order : List Dir) :
+    (runOp s orc (.cleanup order)).2 = .ok ∧
+    ∀ d, d ∈ (runOp s orc (.cleanup order)).1.dirs ↔ ∃ a ∈ (runOp s orc (.cleanup order)).1.snaps, d = Dir.id a.id := by
+  simp only [runOp, plan, hopen, Bool.false_eq_true, if_false, cleanupPlan]
+  obtain ⟨c1, _, _, _, _, c6, _⟩ := cleanupSteps_state orc (arrange order (s.dirs.filter (fun d => !liveDir s.snaps d))) s
+  refine ⟨trivial, ?_⟩
+  intro d
+  rw [c6, c1, mem_arrange]
+  constructor
+  · rintro ⟨hd, hnot⟩
+    have hl : liveDir s.snaps d = true := by
+      cases hld : liveDir s.snaps d with
+      | true => rfl
+      | false => exact absurd (List.mem_filter.mpr ⟨hd, by simp [hld]⟩) hnot
+    cases d with
+    | temp t => simp [liveDir] at hl
+    | id n =>
+      simp only [liveDir, List.any_eq_true, beq_iff_eq] at hl
+      obtain ⟨a, ha, rfl⟩ := hl
+      exact ⟨a, ha, rfl⟩
+  · rintro ⟨a, ha, rfl⟩
+    refine ⟨had a ha, ?_⟩
+    intro hm
+    have := (List.mem_filter.mp hm).2
+    simp only [liveDir, Bool.not_eq_eq_eq_not, Bool.not_true, List.any_eq_false, beq_iff_eq] at this
+    exact this a ha rfl
+
+theorem inv_ofDurable {s : State} (h : Inv s) (cfg : Config) : Inv (ofDurable (crash s) cfg) :=
+  ⟨h.keyNe, h.distinct, h.idBound, h.parentOk, (fun _ hn => nomatch hn), List.nodup_nil,
+   (fun _ hn => nomatch hn), h.uninit⟩
+
+/-- the result of a start on a durable image -/
+theorem restore_result (d : Durable) (cfg : Config) (orc : Oracle) :
+    ((restore d cfg orc).2 = .ok ∨ (restore d cfg orc).2 = .err .other) ∧
+    ((restore d cfg orc).2 = .err .other ↔
+      (cfg.noRestore = false ∧ cfg.allowInvalid = false ∧
+        ∃ a ∈ d.snaps, isRemote a.labels = true ∧ orc.mountOk a.id = false)) := by
+  simp only [restore, runOp, plan, restartPlan, ofDurable]
+  by_cases hnr : cfg.noRestore = true
+  · simp [hnr]
+  · have hnr' : cfg.noRestore = false := by simpa using hnr
+    simp only [hnr', Bool.false_eq_true, if_false, true_and]
+    by_cases hres : (restoreSteps cfg.allowInvalid orc (remoteOf d.snaps)).2 = true
+    · simp only [hres, if_true, true_or, reduceCtorEq, false_iff, true_and]
+      intro hcontra
+      have := (restoreSteps_fails_iff cfg.allowInvalid orc (remoteOf d.snaps)).mpr
+        ⟨hcontra.1, by
+          obtain ⟨a, ha, har, hm⟩ := hcontra.2
+          exact ⟨a, List.mem_filter.mpr ⟨ha, har⟩, hm⟩⟩
+      rw [hres] at this; cases this
+    · have hres' : (restoreSteps cfg.allowInvalid orc (remoteOf d.snaps)).2 = false := by simpa using hres
+      simp only [hres', Bool.false_eq_true, if_false, or_true, true_iff, true_and]
+      obtain ⟨h1, t, ht, hm⟩ := (restoreSteps_fails_iff cfg.allowInvalid orc (remoteOf d.snaps)).mp hres'
+      have ht' := List.mem_filter.mp ht
+      exact ⟨h1, t, ht'.1, ht'.2, hm⟩
+
+theorem restore_snaps (d : Durable) (cfg : Config) (orc : Oracle) :
+    (restore d cfg orc).1.snaps = d.snaps ∧ (restore d cfg orc).1.seq = d.seq ∧ (restore d cfg orc).1.init = d.init := by
+  simp only [restore, runOp, plan, restartPlan]
+  split
+  · simp [applySteps, applyStep, ofDurable]
+  · obtain ⟨r1, _, r3, r4, _⟩ := restoreSteps_state cfg.allowInvalid orc (remoteOf (ofDurable d cfg).snaps)
+      (applyStep (ofDurable d cfg) (.crash cfg))
+    split
+    · simp only [applySteps_cons, applySteps_append, applySteps_nil]
+      exact ⟨r1, r3, r4⟩
+    · simp only [applySteps_cons]
+      exact ⟨r1, r3, r4⟩
+
+/-- the state after a successful restoring start -/
+theorem restore_ok_state (d : Durable) (cfg : Config) (orc : Oracle) (hnr : cfg.noRestore = false)
+    (hok : (restore d cfg orc).2 = .ok) :
+    (restore d cfg orc).1.closed = false ∧
+    (∀ n, n ∈ (restore d cfg orc).1.mounts ↔ ∃ a ∈ d.snaps, isRemote a.labels = true ∧ a.id = n ∧ orc.mountOk n = true) ∧
+    (∀ x, x ∈ (restore d cfg orc).1.dirs ↔ x ∈ d.dirs ∨ ∃ a ∈ d.snaps, isRemote a.labels = true ∧ x = Dir.id a.id) := by
+  simp only [restore, runOp, plan, restartPlan, hnr, Bool.false_eq_true, if_false] at hok ⊢
+  by_cases hres : (restoreSteps cfg.allowInvalid orc (remoteOf (ofDurable d cfg).snaps)).2 = true
+  case neg => simp [hres] at hok
+  case pos =>
+    simp only [hres, if_true, applySteps_cons, applySteps_append, applySteps_nil]
+    obtain ⟨_, _, _, _, _, r6, r7, r8⟩ := restoreSteps_state cfg.allowInvalid orc (remoteOf (ofDurable d cfg).snaps)
+      (applyStep (ofDurable d cfg) (.crash cfg))
+    have rm := restoreSteps_mounts cfg.allowInvalid orc (remoteOf (ofDurable d cfg).snaps)
+      (applyStep (ofDurable d cfg) (.crash cfg)) hres
+    refine ⟨rfl, ?_, ?_⟩
+    · intro n
+      show n ∈ (applySteps (applyStep (ofDurable d cfg) (.crash cfg)) _).mounts ↔ _
+      rw [rm]
+      constructor
+      · rintro (h | ⟨t, ht, h1, h2⟩)
+        · cases h
+        · have ht' := List.mem_filter.mp ht
+          exact ⟨t, ht'.1, ht'.2, h1, h2⟩
+      · rintro ⟨a, ha, har, h1, h2⟩
+        exact Or.inr ⟨a, List.mem_filter.mpr ⟨ha, har⟩, h1, h2⟩
+    · intro x
+      show x ∈ (applySteps (applyStep (ofDurable d cfg) (.crash cfg)) _).dirs ↔ _
+      constructor
+      · intro hx
+        rcases r6 x hx with h | ⟨t, ht, rfl⟩
+        · exact Or.inl h
+        · have ht' := List.mem_filter.mp ht
+          exact Or.inr ⟨t, ht'.1, ht'.2, rfl⟩
+      · rintro (h | ⟨a, ha, har, rfl⟩)
+        · exact r7 x h
+        · exact r8 hres a (List.mem_filter.mpr ⟨ha, har⟩)
+
 end SV.Snap
